@@ -117,7 +117,9 @@ let () =
         if int_of_string rc = 0 then "st=SUCCESS"
         else if op = "L" && mode = "T" && int_of_string e = 11 then "st=UNAVAILABLE"
         else "*" in
-      Printf.printf "M st=%s || calls=1 flock(fd,%s)\nS %s\n" st (flag_names flags) s
+      (* nb: no flock request made for a TRY call may sleep (LockModel.lock_flags TRY carries LOCK_NB:
+         Properties_C19.lock_flags_prescribed), whatever the kernel answered *)
+      Printf.printf "M st=%s nb=ok || calls=1 flock(fd,%s)\nS %s nb=ok\n" st (flag_names flags) s
     | ["P"; kinds; sched] ->
       let (m, s) = lockstep (String.length kinds / 2) (String.split_on_char ',' sched) in
       Printf.printf "M %s\nS %s\n" m s
